@@ -148,6 +148,10 @@ SeqTheorems(kind, s) ==
         /\ (r.t = "val" => r.v = total /\ NLo(res) <= r.v /\ r.v <= NHi(res))    \* never a wrong or out-of-range sum
         /\ (r.t = "val") = prefixesOK                                            \* fails iff a running sum leaves the range
         /\ (kind = "seqZ" => (r.t = "val") = (total <= M))                       \* non-negative: iff the total fits
+        /\ A!TotalFrom(s, 1) = total
+        /\ (r.t = "val" => A!ExactTotal(res, s) = r)                             \* the two readings of "sum" agree ...
+        /\ (kind = "seqZ" => A!ExactTotal(res, s) = r)                           \* ... always for non-negative amounts
+        /\ (A!ExactTotal(res, s) # r => ~prefixesOK /\ NLo(res) <= total /\ total <= NHi(res))
         /\ r = LiftFold(IF kind = "seqZ" THEN "Z.oadd" ELSE "B.oadd", A!Val(0), s, 1)
         /\ (kind = "seqZ" => A!Spec("Z.isum", <<s>>) = r /\ A!Spec("Z.isum_ref", <<s>>) = r)
         /\ (kind = "seqB" => A!Spec("B.sum", <<s>>) = r /\ A!Spec("B.isum", <<s>>) = r /\ A!Spec("B.isum_ref", <<s>>) = r)
